@@ -68,6 +68,26 @@ Theorem C09_object_type_variants : forall mode, gofilemode_type mode = L "file" 
   (N.land mode 61440 = 16384%N -> spec_type mode = L "directory").
 Proof. intros mode. split; [reflexivity|]. intros H. unfold spec_type. rewrite H. reflexivity. Qed.
 
+(* the object type of a file summary in the model the checker runs: the default when the selected PATH
+   record has no mode (with a warning when it has one that is not octal), else obj_type_of_mode - which
+   reads the number as a Go os.FileMode, so every unix mode (all of 0..0177777 and up to 2^19) comes out
+   as "file": the theorem form of the known finding *)
+Theorem C09_file_object_type : forall paths hint what op0,
+  let p := selected paths hint in
+  let '(_, _, ot, bad) := set_file_object paths hint what op0 in
+  match fget (L "mode") p with
+  | None => ot = what /\ bad = false
+  | Some ms => match oct64 ms with
+               | None => ot = what /\ bad = true
+               | Some mode => ot = obj_type_of_mode mode what /\ bad = false
+               end
+  end.
+Proof. exact file_object_type. Qed.
+Theorem C09_unix_modes_read_as_file : forall mode dflt, (mode < 2 ^ 19)%N -> obj_type_of_mode mode dflt = L "file".
+Proof. exact object_type_of_unix_mode. Qed.
+
+Print Assumptions C09_file_object_type.
+Print Assumptions C09_unix_modes_read_as_file.
 Print Assumptions C09_primary_nothing_dropped_partial.
 Print Assumptions C09_result_session.
 Print Assumptions C09_compound_fields_kept.
